@@ -122,7 +122,8 @@ class TermAlg:
         self.signs: Dict[Any, int] = {}  # sign assumptions on symbols: ("sym", name) -> +1 / -1
         self.ext_stubs: Dict[str, Any] = {}  # dotted name of a third-party callable -> fn(ta, pos, kw)
         self._class_vals: Dict[Any, Any] = {}
-        self._yields: List[List[Any]] = []  # (class, name) -> the one object a class-level binding denotes
+        self._yields: List[List[Any]] = []
+        self._text_depth = 0  # (class, name) -> the one object a class-level binding denotes
 
     # ------------------------------------------------------------ builders
     def term(self, keys: List[Key], prefix: str, const_name: Optional[str] = None) -> Rec:
@@ -322,6 +323,24 @@ class TermAlg:
                 except _Cont:
                     continue
             else:
+                self.block(s.orelse, env)
+            return
+        if isinstance(s, ast.While):
+            # on concrete data a loop runs as often as its test says; a bound keeps a loop the data cannot end finite
+            rounds = 0
+            broke = False
+            while self.truth(self.eval(s.test, env), s.test):
+                rounds += 1
+                if rounds > 200:
+                    raise AnalysisError("while loop in %s does not end on the scenario's data" % self.fstack[-1].key)
+                try:
+                    self.block(s.body, env)
+                except _Brk:
+                    broke = True
+                    break
+                except _Cont:
+                    continue
+            if not broke:
                 self.block(s.orelse, env)
             return
         if isinstance(s, ast.Return):
@@ -555,6 +574,20 @@ class TermAlg:
             r = self.prog.resolve_dotted(b.name + "." + e.attr)
             if r is not None:
                 return r  # a function / class / sub-module of a module of the package
+            if e.attr in b.assigns:
+                # a constant / table of that module, read through the module object: evaluated among its own names
+                class _Frame:
+                    module = b
+                    key = b.base + ".<module>"
+                    cls = None
+                    params: List[str] = []
+                    kind = "function"
+
+                self.fstack.append(_Frame())  # type: ignore[arg-type]
+                try:
+                    return self.eval(ast.Name(id=e.attr, ctx=ast.Load()), {})
+                finally:
+                    self.fstack.pop()
         if isinstance(b, Key) and e.attr == "name":
             return ("str", b.name)
         if isinstance(b, tuple) and b and b[0] == "str" and e.attr == "join":
@@ -693,6 +726,19 @@ class TermAlg:
                 return repr(float(c))
             return "<%s>" % v.show()
         if isinstance(v, Rec):
+            # the class's own text (what str() / an f-string gives): __str__, else __repr__ - this is what code that
+            # identifies objects by their printed form actually compares
+            m_ = self.prog.resolve_method(v.cls, "__str__") or self.prog.resolve_method(v.cls, "__repr__")
+            if m_ is not None and m_.cls is not None and len(self.fstack) < 30 and self._text_depth < 6:
+                self._text_depth += 1
+                try:
+                    r_ = self.call(m_, [], {}, self_val=v)
+                    if isinstance(r_, tuple) and r_ and r_[0] == "str" and "?" not in r_[1]:
+                        return r_[1]
+                except (AnalysisError, Undecidable, Raised):
+                    pass
+                finally:
+                    self._text_depth -= 1
             parts = []
             for k in sorted(v.f):
                 parts.append("%s=%s" % (k, self.text_of(v.f[k])))
@@ -858,6 +904,11 @@ class TermAlg:
             return self.method(l, "__add__", [r])
         if isinstance(l, Rec) and type(op) in _DUNDER and self.prog.resolve_method(l.cls, _DUNDER[type(op)]) is not None:
             return self.method(l, _DUNDER[type(op)], [r])
+        if isinstance(op, ast.Add) and ((isinstance(l, Key) and isinstance(r, tuple) and r and r[0] == "str") or (isinstance(r, Key) and isinstance(l, tuple) and l and l[0] == "str")):
+            # a name used as text, joined with text
+            lt_ = l.name if isinstance(l, Key) else l[1]
+            rt_ = r.name if isinstance(r, Key) else r[1]
+            return ("str", lt_ + rt_)
         if isinstance(l, tuple) and l and l[0] == "str" and isinstance(r, tuple) and r and r[0] == "str" and isinstance(op, ast.Add):
             return ("str", l[1] + r[1])
         if isinstance(l, tuple) and l and l[0] == "str":
@@ -1100,6 +1151,13 @@ class TermAlg:
                     rec(gi + 1, env3)
 
         rec(0, dict(env))
+
+    def x_NamedExpr(self, e, env):
+        v = self.eval(e.value, env)
+        if not isinstance(e.target, ast.Name):
+            raise AnalysisError("walrus target %s" % norm(e.target))
+        env[e.target.id] = v  # (name := value): bound where it stands (inside a comprehension: for that iteration)
+        return v
 
     def x_ListComp(self, e, env):
         res = ListV()
@@ -1366,6 +1424,12 @@ class TermAlg:
 
                     return ListV(sorted(items, key=k_sorted))
                 if n == "len":
+                    if isinstance(pos[0], Key):
+                        return num(len(pos[0].name))  # a name used as text
+                    if isinstance(pos[0], tuple) and pos[0] and pos[0][0] == "str":
+                        if "?" in pos[0][1]:
+                            raise AnalysisError("length of a text that was not followed")
+                        return num(len(pos[0][1]))
                     return num(len(self.iterate(pos[0], e)))
                 if n == "type":
                     return ("typeof", pos[0])
